@@ -208,7 +208,7 @@ PROPS = {
         level_note='Expected values come from the generator (strtof/strtod for decimal spellings, exact arithmetic for ranges built from exactly representable steps). Overlapping ranges, ranges of other than c/i/h/f/d and leading/trailing filler are outside the documented grammar and not generated.',
         technique='constructive-oracle (value-first) generator + round-trip monitor under AddressSanitizer/UBSan',
         stages=[dict(harness='c11', variant='asan', quick=20000, thorough=1000000,
-                     need=['sentences', 'layouts', 'reprints', 'syntax.array', 'syntax.progression_behind_range_with_same_start', 'syntax.range_behind_repeated_array', 'syntax.spelled_progression', 'syntax.unrelated_value_before_progression', 'syntax.range_chain', 'syntax.array_endless_range_of_other_type', 'syntax.multiplier', 'syntax.range_with_delta', 'syntax.range_unit_step', 'syntax.endless_range_with_delta',
+                     need=['sentences', 'layouts', 'reprints', 'syntax.array', 'syntax.range_h_wide_step', 'reprints_with_options', 'syntax.progression_behind_range_with_same_start', 'syntax.range_behind_repeated_array', 'syntax.spelled_progression', 'syntax.unrelated_value_before_progression', 'syntax.range_chain', 'syntax.array_endless_range_of_other_type', 'syntax.multiplier', 'syntax.range_with_delta', 'syntax.range_unit_step', 'syntax.endless_range_with_delta',
                            'syntax.endless_range_deltaless', 'syntax.hex_int', 'syntax.hex_float', 'syntax.exact_value_in_parentheses', 'syntax.concatenated_string', 'syntax.quoted_symbol', 'syntax.time_fraction'])],
         rule='case = one sentence (3 layouts + 1 reprint); distinct = hash of the plain sentence; every sentence is non-trivial.',
         exhaustive=dict(quick=False, thorough=False),
